@@ -615,9 +615,12 @@ Qed.
 Lemma del_msg_same dr f s c n sid u req hard : hsame s c (del_msg dr f s c n sid u req hard).
 Proof.
   unfold del_msg, hsame. pose proof (acl_same_refl s) as R1. pose proof (cacl_shrink_refl c) as R2.
-  destruct (negb (is_deleter (user_mode c u)) && negb (is_reader (user_mode c u))) eqn:EP; [auto|].
+  cbv zeta.
+  destruct (negb (hard && is_deleter (user_mode c u)) && negb (is_reader (user_mode c u))) eqn:EP; [auto|].
   assert (alookup u (c_users c) = Some (get_pud c u)) as Hu.
-  { apply andb_false_iff in EP. destruct EP as [E|E]; apply negb_false_iff in E; eapply get_pud_has; exact E. }
+  { apply andb_false_iff in EP. destruct EP as [E|E]; apply negb_false_iff in E.
+    - apply andb_true_iff in E. destruct E as [_ E]. eapply get_pud_has; exact E.
+    - eapply get_pud_has; exact E. }
   destruct (dr (c_lastid c) req) as [ranges|]; [|auto].
   destruct (call f n) as [ok1 n1]. destruct (negb ok1); [auto|].
   destruct (call f n1) as [ok2 n2]. destruct (negb ok2); [split; [apply acl_same_delete_list|auto]|].
